@@ -24,7 +24,10 @@ META = dict(
                "and dependency parameters; var-positional / var-keyword / positional-only parameters are outside it (the model "
                "covers *args and **kwargs faithfully, the theorem C08_scope_excludes_var_positional shows the statement fails "
                "there: observation, not a finding). A keyword named `self` is refused by kiq() itself (TypeError at the caller). "
-               "A str with a lone surrogate is not counted as JSON-representable. Annotations on which parse_obj_as raises "
+               "A str with a lone surrogate (U+D800..U+DFFF) counts as JSON-representable where Python's json module carries it "
+               "and the unchanged code sends it: as a value (argument, list item, dict value, dataclass field) under ProxyFormatter; "
+               "as a dict key, or anywhere under JSONFormatter, pydantic's JSON writer refuses it loudly (UnicodeEncodeError, nothing "
+               "is sent) - not generated; nor is a high surrogate directly followed by a low one (json itself joins the two). Annotations on which parse_obj_as raises "
                "outside ValueError/RuntimeError (only a user validator that itself raises TypeError was found) are excluded by "
                "hypothesis from C08_binding and from the oracle; C08_foreign_exception_not_invoked covers them. "
                "None is never converted (the code's `if value is None: continue`). "
@@ -48,7 +51,12 @@ META = dict(
          "per delivery, or a started InMemoryBroker), the task functions changing their arguments in place after recording them; "
          "every delivery judged on its own; non-trivial iff some delivery's bytes were delivered before and an earlier execution "
          "of them changed a container argument in place. About one generated function in six (all families) changes its "
-         "arguments in place; the round-trip clause is judged on a decode before and a decode after every execution",
+         "arguments in place; the round-trip clause is judged on a decode before and a decode after every execution. "
+         "A text case = an ordinary call (or life-cycle / redelivery group) whose values carry lone surrogates, non-BMP / non-ASCII "
+         "text, NUL / control characters, BOM / non-characters / separators, escape look-alikes or very long strings (bare, nested, "
+         "dict keys, model / dataclass fields, keyword and parameter names). The broker's serializer is the one its own "
+         "constructor installed ('default': half of the text cases, about a third of the hand-built-JSON cases of every other "
+         "family, drawn from a hash of the case) or an object built by the driver; the formatter likewise (proxy / proxy_built)",
     trusted_base=["model: coq/theories/Params.v (hand-written transcription of parse_params, run_task's call assembly, CPython "
                   "argument binding, kicker._prepare_message, formatter composition)",
                   "parse_obj_as (pydantic) = Section variable `conv`, instantiated per case by a table of pydantic's own answers "
@@ -58,7 +66,8 @@ META = dict(
                   "canonicaliser and value/type/name numbering in harness/drivers/params_driver.py and harness/props/C08.py"],
     assumptions=["dependency resolution itself (order, caching, teardown) is C06/C12; here a dependency is a keyword argument the "
                  "receiver adds unless the message carries one of the same name",
-                 "values are JSON-representable (str keys, lists not tuples, finite floats, no lone surrogates)"],
+                 "values are JSON-representable (str keys, lists not tuples, finite floats; lone surrogates only as values under "
+                 "ProxyFormatter, never a high one directly followed by a low one)"],
 )
 
 NAMES = ["a", "b", "c", "d", "e", "g", "x", "y", "args", "kwargs", "labels", "task_name", "message", "target",
@@ -251,6 +260,7 @@ def gen_case(r, annpick=None, aimed=None):
     case["ser"] = r.choice(["json", "json", "pickle"])
     gen_call(r, case, aimed)
     derive_mutate(case)
+    derive_default_serializer(case)
     return case
 
 
@@ -264,6 +274,21 @@ def derive_mutate(case):
     h = zlib.crc32(json.dumps(case, sort_keys=True).encode())
     if h % 6 == 0:
         case["mutate"] = MUTATIONS[h // 6 % len(MUTATIONS)]
+
+
+def derive_default_serializer(c):
+    """one in three of the cases / groups whose broker would be handed a JSONSerializer() built by the driver leave
+    the broker with the serializer ITS OWN CONSTRUCTOR installed ("ser": "default" - what an application that configures
+    nothing runs with).  Drawn from a hash of the case, not from the generator's stream (cf. derive_mutate)."""
+    if "ser" not in c and "steps" in c:            # a group whose calls each have their own broker
+        for st in c["steps"]:
+            derive_default_serializer(st)
+    elif c.get("ser") == "json" and zlib.crc32(b"serializer:" + json.dumps(c, sort_keys=True).encode()) % 3 == 0:
+        c["ser"] = "default"
+        for st in c.get("steps", []):
+            if st.get("ser") == "json":
+                st["ser"] = "default"
+    return c
 
 
 def gen_call(r, case, aimed=None):
@@ -530,7 +555,7 @@ def gen_group(r):
     g = dict(types=types, steps=steps, shared=shared)
     if shared:
         g["fmt"], g["ser"], g["validate"] = conf
-    return g
+    return derive_default_serializer(g)
 
 
 TWIN_TABLE = {
@@ -779,7 +804,7 @@ def gen_registry_group(r, stale_ok=False):
         if g["steps"] and (stale or not stale_ok):
             if stale:
                 g["observation"] = True
-            return g
+            return derive_default_serializer(g)
     raise RuntimeError("no registry group generated")
 
 
@@ -908,7 +933,7 @@ def shutdowns_before_calls(life):
     return out
 
 
-def gen_lifecycle_group(r):
+def gen_lifecycle_group(r, annpick=None, aimed=None):
     conf = (r.choice(["proxy", "proxy", "json"]), r.choice(["json", "json", "pickle"]), r.random() < .5)
     n = r.choice([2, 3, 3, 4, 5])
     pre = r.choice(LIFE_PRE)
@@ -922,10 +947,10 @@ def gen_lifecycle_group(r):
             i = r.randrange(j)
             i = steps[i].get("task", i)
             st = copy.deepcopy(dict(params=steps[i]["params"], ret=steps[i]["ret"]))
-            gen_call(r, st)
+            gen_call(r, st, aimed)
             st["async"], st["task"] = steps[i]["async"], i
         else:
-            st = gen_case(r)
+            st = gen_case(r, annpick, aimed)
         set_conf(st, conf)
         steps.append(st)
     life = assemble_life(r, steps, pre, mids, tail, r.choice(["upfront", "upfront", "lazy", "mixed"]),
@@ -937,7 +962,7 @@ def gen_lifecycle_group(r):
         st["async"] = steps[st["task"]]["async"] if "task" in st else st["async"]
     g = dict(broker=gen_broker_opts(r), life=life, steps=steps)
     g["fmt"], g["ser"], g["validate"] = conf
-    return g
+    return derive_default_serializer(g)
 
 
 LIFE_FN = [P("a", ann="int"), P("b"), P("p", ann="M1"), P("d", ann="D1"), P("f", "kw", ann="float", default=True),
@@ -1018,7 +1043,7 @@ def rd_annpick(q):
     return wchoice(q, RD_ANN_W)
 
 
-def gen_redelivery_group(r):
+def gen_redelivery_group(r, annpick=rd_annpick, aimed=RD_AIMED):
     conf = (r.choice(["proxy", "proxy", "json"]), r.choice(["json", "json", "json", "pickle"]), r.random() < .65)
     inmem = r.random() < .35
     rd = dict(path="inmemory" if inmem else "receiver", receiver=r.choice(["shared", "shared", "fresh"]),
@@ -1029,14 +1054,14 @@ def gen_redelivery_group(r):
         if owners and r.random() < .3:                                 # the same task again, other arguments
             o = r.choice(owners)
             st = copy.deepcopy(dict(params=o["params"], ret=o["ret"]))
-            gen_call(r, st, RD_AIMED)
+            gen_call(r, st, aimed)
             while has_type(st):
-                gen_call(r, st, RD_AIMED)
+                gen_call(r, st, aimed)
             st.update({"async": o["async"], "task": o["_id"], "mutate": o.get("mutate")})
         else:
-            st = gen_case(r, rd_annpick, RD_AIMED)
+            st = gen_case(r, annpick, aimed)
             while has_type(st):
-                st = gen_case(r, rd_annpick, RD_AIMED)
+                st = gen_case(r, annpick, aimed)
             st["mutate"] = r.choice(MUTATIONS) if r.random() < .85 else None
         set_conf(st, conf)
         if r.random() < .45:
@@ -1052,9 +1077,9 @@ def gen_redelivery_group(r):
                 if r.random() < .3:
                     f["kicker"] = st["_id"]                            # through the very kicker object of the first send
                 if r.random() < .25:                                   # ... with other arguments
-                    gen_call(r, f, RD_AIMED)
+                    gen_call(r, f, aimed)
                     while has_type(f):
-                        gen_call(r, f, RD_AIMED)
+                        gen_call(r, f, aimed)
             else:                                                      # the broker delivers a message once more
                 src = r.choice(sends)
                 f = copy.deepcopy(src)
@@ -1086,7 +1111,7 @@ def gen_redelivery_group(r):
         steps.append(x)
     g = dict(redelivery=rd, steps=steps)
     g["fmt"], g["ser"], g["validate"] = conf
-    return g
+    return derive_default_serializer(g)
 
 
 RD_FNS = [
@@ -1141,6 +1166,277 @@ def redelivery_table_cases():
                 g["fmt"], g["ser"], g["validate"] = conf
                 out.append(g)
     return out
+
+
+# --------------------------------------------------------------------------- text: what a str may contain x the broker's own defaults
+# "JSON-representable values" includes every str Python's json module writes and reads back: ordinary non-ASCII text,
+# characters outside the BMP, NUL / control characters, BOM / non-characters / line separators, text that looks like an
+# escape sequence, very long strings - and strings with a LONE UTF-16 surrogate (U+D800..U+DFFF): json.loads('"\\ud83d"')
+# yields one (an emoji cut in half by a client that truncates to N UTF-16 units), os.fsdecode() / surrogateescape yield
+# them for undecodable file names; json.dumps escapes them, so they travel.  Measured on the unchanged tree, a str with a
+# lone surrogate round-trips as a VALUE (argument, list item, dict value, dataclass field) through ProxyFormatter with
+# the JSON serializer (the broker's default or a hand-built one) and with pickle; it is refused loudly
+# (UnicodeEncodeError from pydantic's JSON writer, nothing sent) as a dict KEY and anywhere under JSONFormatter - those
+# combinations stay out (cf. D9 / C19).  A high surrogate directly followed by a low one is not generated either:
+# Python's json joins the two escapes into one non-BMP character (json.loads(json.dumps(s)) != s for such an s, whatever
+# taskiq does).  Everything else round-trips under every formatter / serializer and is sent under all of them.
+# The cases are ordinary calls (same oracle, same model); what varies is the text inside the values (bare, nested in
+# lists / dict values, dict keys, model / dataclass fields, keyword names of **kwargs, non-ASCII parameter names) and
+# whether the broker's serializer / formatter are the ones ITS OWN CONSTRUCTOR chose or objects built by the driver.
+TEXT = {
+    "lone_surrogate": ["caf\xe9 \ud83d", "\ude00 tail", "r\udce9sum\udce9.txt", "\udc00\ud800", "\ud800", "a\udfffb",
+                       "\udbff", "\U0001f600\ud83d", "x\udc80\x00"],
+    "non_bmp": ["\U0001f600", "\U00010000", "\U0010ffff", "a\U0001f468\u200d\U0001f469\u200d\U0001f467z", "\U000e0001 tag",
+                "\U0001d11e\U0001d11e"],
+    "bmp_non_ascii": ["\xe9\xff", "\u0416\u0438\u0437\u043d\u044c", "\u65e5\u672c\u8a9e", "\u0627\u0644\u0639", "e\u0301",
+                      "\ufb01n", "\xdf\u0130\u0131", "\u2603 na\xefve"],
+    "control": ["a\x00b", "\x00", "\x01\x1f", "\x7f\x80\x9f", "tab\there\r\n", "\x1b[31mred", "\x08\x0c"],
+    "special_bmp": ["\ufeffbom", "\ufffe\uffff", "\ufffd?", "\u2028\u2029", "\u200b\u200e", "\u202eabc", "\ud7ff\ue000",
+                    "\ufdd0"],
+    "escape_lookalike": ["\\ud83d", "\\u0000", "\\\\", "\"}", "%s %d {0}", "\\x00", "?", "\\", "&#128512;", "=?utf-8?b?w6k=?="],
+    "long": ["x" * 70000, "\xe9" * 9000, "\U0001f600" * 4000, "ab\ud83d" * 2500, ("0123456789" * 7 + "\n") * 300],
+}
+TEXT_W = [("lone_surrogate", 34), ("non_bmp", 14), ("bmp_non_ascii", 12), ("control", 14), ("special_bmp", 12),
+          ("escape_lookalike", 11), ("long", 3)]
+TEXT_PLAIN = ["plain", "", "na\xefve \u2603 \U0001f600 text", "5"]
+# parameter names: valid identifiers that are their own NFKC form (the compiler normalises identifiers)
+TEXT_PARAM_NAMES = ["\xe9", "\u65e5\u672c", "\u043a\u043b\u044e\u0447", "na\xefve", "gr\xf6\xdfe"]
+# keyword names only a **kwargs parameter can take
+TEXT_KW_NAMES = ["\xfc-key", "\U0001f600", "a b", "", "\x00", "caf\xe9", "\u2028", "x" * 300]
+TEXT_ANN_W = [(None, 32), ("Any", 15), ("str", 16), ("X", 3), ("Union[int,str]", 5), ("List[str]", 5), ("Dict[str,str]", 4),
+              ("Dict[str,int]", 3), ("M1", 4), ("D2", 4), ("int", 3), ("bool", 1), ("float", 1), ("Optional[int]", 2),
+              ("NZ", 1), ("List[int]", 1)]
+
+
+def has_surrogate(x):
+    """a lone-surrogate code point anywhere in a str of `x` (a str, a value spec, a list / dict of them, keys included)"""
+    if isinstance(x, str):
+        return any("\ud800" <= ch <= "\udfff" for ch in x)
+    if isinstance(x, dict):
+        return any(has_surrogate(k) or has_surrogate(v) for k, v in x.items())
+    if isinstance(x, (list, tuple)):
+        return any(has_surrogate(v) for v in x)
+    return False
+
+
+def text_kind(s):
+    """coarse kind of a str for the evidence distribution (None: plain printable ASCII of ordinary length)"""
+    if has_surrogate(s):
+        return "lone_surrogate" + ("(long)" if len(s) > 1000 else "")
+    if len(s) > 1000:
+        return "long(%s)" % ("ascii" if s.isascii() else "non_ascii")
+    if any(ch > "\uffff" for ch in s):
+        return "non_bmp"
+    if any(ch < " " or "\x7f" <= ch <= "\x9f" for ch in s):
+        return "nul" if "\x00" in s else "control"
+    if not s.isascii():
+        return "bmp_non_ascii"
+    return None
+
+
+def text_specimen(r, surrogates=True):
+    for _ in range(50):
+        kind = wchoice(r, TEXT_W)
+        s = r.choice(TEXT[kind])
+        if surrogates or not has_surrogate(s):
+            return s
+    return "\xe9"
+
+
+def text_shape(r, s):
+    """a JSON value around the specimen `s`: bare, or nested in lists / dict values; as a dict key when the unchanged tree
+    carries it there (no lone surrogate)"""
+    k = r.random()
+    if k < .34:
+        return s
+    if k < .46:
+        return [s, r.choice(TEXT_PLAIN)][:r.choice([1, 2, 2])]
+    if k < .58:
+        return {r.choice(["k", "title", "\xfc"]): s}
+    if k < .70:
+        return {"names": [s, r.choice(TEXT_PLAIN)], "title": text_specimen(r)}
+    if k < .80:
+        return [[{"deep": [s, None, 1.5]}], s]
+    if k < .92 and not has_surrogate(s):
+        return {s: r.choice([1, "v", [s], {s: s}])}
+    return [text_specimen(r) for _ in range(r.choice([2, 3]))] + [s]
+
+
+def _t_any(r):
+    return J(text_shape(r, text_specimen(r)))
+
+
+def _t_str(r):
+    return J(text_specimen(r))
+
+
+def _t_m1(r):
+    k = r.random()
+    if k < .6:
+        return J({"x": r.choice([1, "3"]), "y": text_specimen(r)})
+    if k < .85:      # an instance: the driver's own reference dict form goes through pydantic's JSON writer - no surrogates
+        return {"model": "M1", "kw": {"x": J(r.choice([1, 2])), "y": J(text_specimen(r, surrogates=False))}}
+    return J(text_specimen(r))
+
+
+def _t_d2(r):
+    k = r.random()
+    if k < .45:
+        return J({"name": text_specimen(r)})
+    if k < .9:
+        return {"dc": "D2", "kw": {"name": J(text_specimen(r))}}
+    return J(text_specimen(r))
+
+
+TEXT_AIMED = {
+    None: _t_any, "Any": _t_any, "X": _t_any, "str": _t_str, "Union[int,str]": _t_str, "int": _t_str, "bool": _t_str,
+    "float": _t_str, "Optional[int]": _t_str, "NZ": _t_str,
+    "List[str]": lambda r: J([text_specimen(r) for _ in range(r.choice([1, 2, 3]))]),
+    "List[int]": lambda r: J([r.choice([1, "2"]), text_specimen(r)]),
+    "Dict[str,str]": lambda r: J({(r.choice(["a", "k"]) if r.random() < .5 else text_specimen(r, False)): text_specimen(r)
+                                  for _ in range(r.choice([1, 2]))}),
+    "Dict[str,int]": lambda r: J({text_specimen(r, False): r.choice([1, "2", 3]) for _ in range(r.choice([1, 2]))}),
+    "M1": _t_m1, "D2": _t_d2,
+}
+
+
+def text_annpick(q):
+    return wchoice(q, TEXT_ANN_W)
+
+
+def case_specs(c):
+    """every value spec of a case or of the steps of a group, and every keyword name"""
+    for st in c.get("steps", [c]):
+        for sp in st["args"]:
+            yield sp
+        for k, sp in st["kwargs"]:
+            yield k
+            yield sp
+
+
+def text_conf(r, c):
+    """formatter x serializer for a case / group with text in it, kept to what the unchanged tree carries (see the header):
+    lone surrogates only under ProxyFormatter; mostly the broker's OWN default serializer"""
+    sur = any(has_surrogate(sp) for sp in case_specs(c))
+    fmt = wchoice(r, [("proxy", 6), ("proxy_built", 2)] + ([] if sur else [("json", 3)]))
+    ser = wchoice(r, [("default", 5), ("json", 3), ("pickle", 2)])
+    c["fmt"], c["ser"] = fmt, ser
+    for st in c.get("steps", []):
+        st["fmt"], st["ser"] = fmt, ser
+    return c
+
+
+def rename_params(r, c):
+    """non-ASCII parameter names (positional-or-keyword, keyword-only): they are the keys of the kwargs dict on the wire"""
+    named = [p for p in c["params"] if p["kind"] in ("pos", "kw")]
+    if not named:
+        return
+    ren = dict(zip([p["name"] for p in r.sample(named, min(len(named), r.choice([1, 1, 2])))],
+                   r.sample(TEXT_PARAM_NAMES, 2)))
+    for p in c["params"]:
+        p["name"] = ren.get(p["name"], p["name"])
+    c["kwargs"] = [[ren.get(k, k), sp] for k, sp in c["kwargs"]]
+
+
+def gen_text_case(r):
+    c = gen_case(r, text_annpick, TEXT_AIMED)
+    if r.random() < .3:
+        rename_params(r, c)
+    vk = [p for p in c["params"] if p["kind"] == "varkw"]
+    if vk and r.random() < .7:                          # keyword names no named parameter could have
+        for n in r.sample(TEXT_KW_NAMES, r.choice([1, 2])):
+            if n not in [k for k, _ in c["kwargs"]]:
+                c["kwargs"].append([n, _t_any(r)])
+    c["validate"] = r.random() < .7
+    return text_conf(r, c)
+
+
+def gen_text_lifecycle_group(r):
+    """the same on ONE InMemoryBroker object constructed with its defaults (the broker of every quick start / test suite)"""
+    return text_conf(r, gen_lifecycle_group(r, text_annpick, TEXT_AIMED))
+
+
+def gen_text_redelivery_group(r):
+    return text_conf(r, gen_redelivery_group(r, text_annpick, TEXT_AIMED))
+
+
+def text_table_cases():
+    """every specimen of TEXT through a handler `f(title, note: str, payload: Any = DFLT, *, tags: List[str] = DFLT,
+    extra=DFLT)`: bare to the un-annotated and the str parameter (positionally / by keyword), nested in dict values and
+    lists, as a dataclass field, as a dict key (where the unchanged tree carries it); two cases per specimen, rotating over
+    the formatter x serializer combinations (the broker's own default serializer in every second case), parsing on / off
+    (3:1), sync / async"""
+    sur_confs = [("proxy", "default"), ("proxy", "json"), ("proxy_built", "default"), ("proxy", "pickle")]
+    all_confs = sur_confs + [("json", "default"), ("proxy", "default"), ("json", "json"), ("proxy_built", "pickle")]
+    out, n = [], 0
+    for kind in sorted(TEXT):
+        for s in TEXT[kind]:
+            sur = has_surrogate(s)
+            for variant in (0, 1):
+                n += 1
+                confs = sur_confs if sur else all_confs
+                fmt, ser = ("proxy", "default") if variant == 0 and n % 4 < 3 else confs[n % len(confs)]
+                params = [P("title"), P("note", ann="str"), P("payload", ann="Any", default=True),
+                          P("tags", "kw", ann="List[str]", default=True), P("extra", "kw", default=True)]
+                plain = TEXT_PLAIN[n % len(TEXT_PLAIN)]
+                if kind == "long":                 # one occurrence per call: the observation carries every value several times
+                    args, kw = ([J(plain), J(s)], []) if variant else ([J(s)], [["note", J(plain)]])
+                elif variant == 0:
+                    args = [J(s), J(s)]
+                    kw = [["payload", J({"names": [s, plain], "title": s})], ["tags", J([plain, s])],
+                          ["extra", {"dc": "D2", "kw": {"name": J(s)}}]]
+                else:
+                    args = [J([s, {"k": s}])]
+                    kw = [["note", J(s)], ["extra", J({"k": [s]} if sur else {s: [s], "k": s})], ["payload", J(s)]]
+                    kw = kw[n % 3:] + kw[:n % 3]
+                out.append(dict(params=params, ret=None, validate=n % 4 != 0, fmt=fmt, ser=ser, args=args, kwargs=kw,
+                                **{"async": n % 2 == 0}))
+    return out
+
+
+def text_counts(rep, c, o):
+    """evidence: which kinds of text the call carried and where, under which formatter / serializer"""
+    seen = set()
+
+    def walk(x, place):
+        if isinstance(x, str):
+            k = text_kind(x)
+            if k:
+                seen.add((k, place))
+        elif isinstance(x, list):
+            for v in x:
+                walk(v, "nested" if place == "argument" else place)
+        elif isinstance(x, dict):
+            for key, v in x.items():
+                walk(key, "dict_key")
+                walk(v, "nested" if place == "argument" else place)
+
+    for sp in c["args"] + [x[1] for x in c["kwargs"]]:
+        if "j" in sp:
+            walk(sp["j"], "argument")
+        elif "kw" in sp:
+            for f in sp["kw"].values():
+                if "j" in f:
+                    walk(f["j"], "model_or_dataclass_field")
+    for k, _ in c["kwargs"]:
+        walk(k, "keyword_name")
+    for p in c["params"]:
+        if not p["name"].isascii():
+            seen.add(("bmp_non_ascii", "parameter_name"))
+    for k, place in sorted(seen):
+        rep.count("text:%s:%s" % (k, place))
+        if k.startswith("lone_surrogate") or k.startswith("long"):
+            rep.count("text:%s:under:%s/%s" % (k.split("(")[0], c["fmt"], c["ser"]))
+    if seen:
+        rep.count("text:calls_with_special_text")
+        if o.get("outcome") == "invoked":
+            rep.count("text:calls_with_special_text:task_function_invoked")
+    bc = o.get("broker_conf")
+    if bc:
+        rep.count("broker:%s:formatter=%s(%s):serializer=%s(%s)" % (
+            bc[0], bc[1], "built by the driver" if c["fmt"] in ("json", "proxy_built") else "as its constructor chose",
+            bc[2], "as its constructor chose" if c["ser"] == "default" else "built by the driver"))
+    return bool(seen)
 
 
 def is_redelivery(case):
@@ -1628,6 +1924,7 @@ def explore(ctx, rep, cases, label, observe_only=False):
         rep.count("fmt:%s/%s" % (c["fmt"], c["ser"]))
         rep.count("fn:" + ("async" if c["async"] else "sync"))
         rep.count("scope:" + ("in" if in_scope(c) else "var_kinds(model only)"))
+        text_counts(rep, c, o)
         if c.get("mutate"):
             rep.count("task_function_changes_its_arguments_in_place:" + c["mutate"])
             if o.get("mutated"):
@@ -1721,16 +2018,16 @@ def run(ctx):
     cases = [gen_case(r) for _ in range(ctx.n(3000, 60000))]
     broken = explore(ctx, rep, cases, "main")
     nmax = ctx.n(2, 3)
-    ex = enum_cases(nmax)
+    ex = [derive_default_serializer(c) for c in enum_cases(nmax)]
     rep.extra["small_scope_exhaustive"] = ("%d cases: every signature of <= %d parameters over {positional-or-keyword, keyword-only} x "
                                            "{un-annotated, Any, int} x {required, defaulted, dependency} x every accepted "
                                            "positional/keyword/unsent split" % (len(ex), nmax))
     broken = explore(ctx, rep, ex, "small_scope") or broken
-    eg = edge_cases()
+    eg = [derive_default_serializer(c) for c in edge_cases()]
     rep.extra["edge_table"] = ("%d cases: every (annotation, value) of the constructor-vs-pydantic edge grammar (%s) sent "
                                "positionally and by keyword" % (len(eg), ", ".join("%s:%d" % (a, len(EDGE[a])) for a in sorted(EDGE))))
     broken = explore(ctx, rep, eg, "edge_table") or broken
-    tw = twin_table_cases()
+    tw = [derive_default_serializer(c) for c in twin_table_cases()]
     r3 = ctx.sub_rng("twins")
     groups = [gen_group(r3) for _ in range(ctx.n(150, 4000))]
     rep.extra["same_named_types"] = ("%d table groups (every kind of same-named twin pair: %s; x bare / List / Optional / Dict x "
@@ -1738,7 +2035,7 @@ def run(ctx):
                                      "process per group, each call judged on its own against pydantic on the call's own class"
                                      % (len(tw), ", ".join(TW_KINDS), len(groups)))
     broken = explore(ctx, rep, tw + groups, "same_named_types") or broken
-    rt = registry_table_cases()
+    rt = [derive_default_serializer(c) for c in registry_table_cases()]
     r4 = ctx.sub_rng("registry")
     rgroups = [gen_registry_group(r4) for _ in range(ctx.n(110, 3000))]
     rep.extra["task_registry"] = ("%d table groups (%d pairs of same-named functions that convert / fill one call differently x %d "
@@ -1747,7 +2044,7 @@ def run(ctx):
                                   "judged by the signature of the function whose body ran"
                                   % (len(rt), len(REG_PAIRS), len(REG_LAYOUTS), len(rgroups)))
     broken = explore(ctx, rep, rt + rgroups, "task_registry") or broken
-    lt = lifecycle_table_cases()
+    lt = [derive_default_serializer(c) for c in lifecycle_table_cases()]
     r5 = ctx.sub_rng("lifecycle")
     lgroups = [gen_lifecycle_group(r5) for _ in range(ctx.n(70, 2500))]
     rep.extra["broker_life_cycle"] = ("%d table groups (cast_types off / on x %d histories before the first send x %d "
@@ -1757,7 +2054,7 @@ def run(ctx):
                                       "before the first shutdown: the pool is closed for good by it)"
                                       % (len(lt), len(LIFE_TABLE_PRE), len(LIFE_TABLE_MID), len(lgroups)))
     broken = explore(ctx, rep, lt + lgroups, "broker_life_cycle") or broken
-    dt = redelivery_table_cases()
+    dt = [derive_default_serializer(c) for c in redelivery_table_cases()]
     r6 = ctx.sub_rng("redelivery")
     dgroups = [gen_redelivery_group(r6) for _ in range(ctx.n(60, 2500))]
     rep.extra["redelivery"] = ("%d table groups (%d handlers that consume their input x %d places (worker Receiver shared / per "
@@ -1768,13 +2065,29 @@ def run(ctx):
                                "after every execution" % (len(dt), len(RD_FNS), len(RD_PLACES), len(RD_PATTERNS), len(dgroups),
                                                           ", ".join(MUTATIONS)))
     broken = explore(ctx, rep, dt + dgroups, "redelivery") or broken
+    tt = text_table_cases()
+    r7 = ctx.sub_rng("text")
+    tcases = [gen_text_case(r7) for _ in range(ctx.n(160, 6000))]
+    tgroups = [gen_text_lifecycle_group(r7) for _ in range(ctx.n(18, 800))] + \
+        [gen_text_redelivery_group(r7) for _ in range(ctx.n(14, 700))]
+    rep.extra["text_and_broker_defaults"] = (
+        "%d table cases (every specimen of the text grammar: %s; bare / nested in lists and dict values / dataclass field / dict "
+        "key, two calls each) + %d random calls + %d life-cycle and redelivery groups on brokers constructed with their defaults, "
+        "whose values carry such text; lone surrogates only as values under ProxyFormatter (what the unchanged tree carries); "
+        "serializer / formatter either the ones the broker's own constructor chose or objects built by the driver. Besides, in "
+        "every family about one case in three of those with a hand-built JSONSerializer() leaves the broker's own default "
+        "serializer in place instead" % (len(tt), ", ".join("%s:%d" % (k, len(v)) for k, v in sorted(TEXT.items())),
+                                         len(tcases), len(tgroups)))
+    broken = explore(ctx, rep, tt + tcases + tgroups, "text") or broken
     if (broken or any(not o["ok"] for o in rep.obligations)) and not rep.failures:
         r2 = ctx.sub_rng("search")
         explore(ctx, rep, [gen_case(r2) for _ in range(ctx.n(10000, 100000))] +
                 [gen_group(r2) for _ in range(ctx.n(500, 5000))] +
                 [gen_registry_group(r2) for _ in range(ctx.n(500, 5000))] +
                 [gen_lifecycle_group(r2) for _ in range(ctx.n(300, 3000))] +
-                [gen_redelivery_group(r2) for _ in range(ctx.n(300, 3000))], "search")
+                [gen_redelivery_group(r2) for _ in range(ctx.n(300, 3000))] +
+                [gen_text_case(r2) for _ in range(ctx.n(1000, 10000))] +
+                [gen_text_lifecycle_group(r2) for _ in range(ctx.n(100, 1000))], "search")
     return rep.finish()
 
 
@@ -1858,6 +2171,12 @@ def replay(ctx, path):
 
 def replay_one(ctx, c, o, label):
     print("function:", o.get("src", "").strip())
+    if o.get("broker_conf"):
+        print("broker: a subclass of %s; formatter %s (%s); serializer %s (%s)" % (
+            o["broker_conf"][0], o["broker_conf"][1],
+            "built by the driver" if c.get("fmt") in ("json", "proxy_built") else "the one the broker's constructor installed",
+            o["broker_conf"][2],
+            "the one the broker's constructor installed" if c.get("ser") == "default" else "built by the driver"))
     print("sent (wire):", o.get("wire"))
     print("implementation: kiq=%s outcome=%s received=%s" % (o["kiq"], o.get("outcome"), o.get("received")))
     fails = oracle(c, o)
